@@ -174,6 +174,9 @@ func genHist(r *rand.Rand, id int, kind int, length int) *Hist {
 		}
 	case 8: // planes of every scale: half-extents from 10 m down to the smallest positive float32, far from the origin too
 		scales := []float64{10, 1, 1e-2, 1e-4, 3e-6, 1e-6, 3e-7, 1e-8, 1e-12, 1e-19, 1e-23, 1e-30, 1e-38, 1e-42, 1.4e-45}
+		if length > 10 {
+			length = 10 // the exact model's rationals get large with these magnitudes: short histories, many of them
+		}
 		for i := 0; i < length; i++ {
 			e := func() uint32 {
 				v := float32(scales[r.Intn(len(scales))] * (0.5 + r.Float64()))
